@@ -84,6 +84,28 @@ class Box:
         raise TypeError("c01 Box travels only through the serde registered in JobInstance.serdes")
 
 
+class TBox(Box):
+    """A SUBCLASS of Box with state of its own that pickles normally: no serde is registered for it, so it must travel by
+    pickle and come back as a TBox with its tag (a serde registered for Box is for Box only)."""
+    __slots__ = ("tag",)
+
+    def __init__(self, payload, tag):
+        Box.__init__(self, payload)
+        self.tag = tag
+
+    def __repr__(self):
+        return f"TBox({self.payload!r}, {self.tag!r})"
+
+    def __eq__(self, other):
+        return type(other) is TBox and other.payload == self.payload and other.tag == self.tag
+
+    def __hash__(self):
+        return hash(("TBox", self.payload, self.tag))
+
+    def __reduce_ex__(self, protocol):
+        return (TBox, (self.payload, self.tag))
+
+
 def ser_box(b):
     return b"BOX1" + b.payload.encode("utf-8")
 
@@ -107,6 +129,8 @@ def _fmt(v):
         return "(" + ",".join(_fmt(x) for x in v) + ")"
     if isinstance(v, bytes):
         return "b<" + v.hex() + ">"
+    if type(v) is TBox:
+        return "TBox<" + v.tag + "|" + v.payload + ">"
     if isinstance(v, Box):
         return "Box<" + v.payload + ">"
     if _is_nd(v):
@@ -140,7 +164,7 @@ def _nd(s):
 def _val(ret, tag, i, bound):
     """The value of output `i` of task `tag` whose parameters were bound as `bound` = [(name, value)...]."""
     if ret == "tuple":
-        return (tag, i) + tuple(("Box", x.payload) if isinstance(x, Box) else x for pair in bound for x in pair)
+        return (tag, i) + tuple((("TBox", x.tag, x.payload) if type(x) is TBox else ("Box", x.payload)) if isinstance(x, Box) else x for pair in bound for x in pair)
     if ret == "sum" and all(type(v) is int for _, v in bound):
         return 1000 * (i + 1) + sum((j + 2) * v for j, (_, v) in enumerate(bound))
     s = f"{tag}#{i}[" + ";".join(f"{n}={_fmt(v)}" for n, v in bound) + "]"
@@ -150,6 +174,8 @@ def _val(ret, tag, i, bound):
         return s.encode()
     if ret == "box":
         return Box(s)
+    if ret == "tbox":
+        return TBox(s, "t%d" % (zlib.crc32(s.encode()) % 97))
     if ret == "nd":
         return _nd(s)
     if ret == "ndm":
@@ -173,6 +199,8 @@ def _canon(v):
         return "bytes:" + v.hex()
     if type(v) is Box:
         return "Box:" + repr(v.payload)
+    if type(v) is TBox:
+        return "TBox:" + repr(v.tag) + ":" + repr(v.payload)
     if _is_nd(v):
         return f"nd:{v.dtype.str}:{list(v.shape)}:{v.tolist()!r}"
     return f"{type(v).__module__}.{type(v).__qualname__}:{v!r}"
@@ -370,7 +398,7 @@ def gen_spec(rng, dense=False, theme=None):
         nsrc = 2
     elif rng.random() < 0.2:
         gpus = rng.randint(1, workers)
-    rets = RETS + (RETS_RICH if rich else ()) + (("box", "box") if serdes else ())
+    rets = RETS + (RETS_RICH if rich else ()) + (("box", "box", "tbox") if serdes else ())
     # one host's workers take every source of a component they can: a second host joins in (and inter-host transfers happen)
     # only when more tasks are computable at once than one host has workers -> workers + 1 sources on several hosts
     nsrc = max(2, min(workers + 1, 4)) if hosts > 1 else 2
@@ -397,6 +425,8 @@ def gen_spec(rng, dense=False, theme=None):
         rng.choice(tasks)["gpu"] = True
     if theme == "serde" and not any(t["ret"] == "box" for t in tasks):
         tasks[0]["ret"] = "box"           # the generator source: several Boxes, consumed downstream
+    if theme == "serde" and len(tasks) > 1 and not any(t["ret"] == "tbox" for t in tasks):
+        tasks[1]["ret"] = "tbox"          # a picklable SUBCLASS of the type the serde is registered for
     if theme == "serde" and not any(t["ret"] == "nd" for t in tasks):
         tasks[1]["ret"] = "nd"
     has_consumer = {t for (t, _o) in consumed}
@@ -588,7 +618,7 @@ def features(spec):
             f.add("value-nd-with-2-or-more-elements")
             if [t["name"]] in [e[:1] for e in spec["ext"]] and any("src" in b and tuple(b["src"])[0] == t["name"] for u in spec["tasks"] for b in u["bind"]):
                 f.add("requested-nd-value-consumed-downstream")
-        if t["ret"] in ("nd", "bytes", "box"):
+        if t["ret"] in ("nd", "bytes", "box", "tbox"):
             f.add("value-" + t["ret"])
             if any("src" in b and tuple(b["src"])[0] == t["name"] for u in spec["tasks"] for b in u["bind"]):
                 f.add("value-" + t["ret"] + "-consumed-downstream")
